@@ -408,13 +408,14 @@ theorem applies to the schemas the correspondence check ties to the Rust declara
 def realNames : List String :=
   ["AttrPath", "CmdPath", "EventPath", "ClusterPath", "EventFilter", "TimedReq", "Target", "DataVersionFilter",
    "Status", "StatusResp", "SessionParameters", "PBKDFParamReq", "PBKDFParamResp", "Pake1", "Pake2", "Pake3",
-   "Sigma1Req", "Sigma2Resp", "TBEData2Decrypt", "Sigma3Decrypt", "Sigma2ResumeMsg", "AclEntry", "Fabric"]
+   "Sigma1Req", "Sigma2Resp", "TBEData2Decrypt", "Sigma3Decrypt", "Sigma2ResumeMsg", "AclEntry", "Fabric",
+   "AttrStatus", "AttrData", "AttrResp", "CmdStatus", "CmdData", "CmdResp"]
 
 theorem real_schemas_wf : ∀ name ∈ realNames, ∃ ty, named name = some ty ∧ ty.wf := by
   intro name hn
   simp only [realNames, List.mem_cons, List.mem_nil_iff, or_false] at hn
   rcases hn with rfl | rfl | rfl | rfl | rfl | rfl | rfl | rfl | rfl | rfl | rfl | rfl | rfl | rfl | rfl | rfl |
-    rfl | rfl | rfl | rfl | rfl | rfl | rfl <;>
+    rfl | rfl | rfl | rfl | rfl | rfl | rfl | rfl | rfl | rfl | rfl | rfl | rfl <;>
   exact ⟨_, rfl, Ty.wf_of_wfb _ (by decide)⟩
 
 -- the hypotheses are satisfiable: an `AclEntry` with a nullable array of integers, an array of
